@@ -24,6 +24,14 @@ func oracleC06(c *CaseHist) *Failure {
 	for i := range c.Ops {
 		op := &c.Ops[i]
 		switch op.Kind {
+		case "cap": // the buffer starts out with this much capacity (a pooled or pre-grown buffer)
+			if i == 0 {
+				buf = bytes.NewBuffer(make([]byte, 0, op.K))
+			}
+		case "fill":
+			fill := bytes.Repeat([]byte{0x55}, op.K)
+			buf.Write(fill)
+			model = append(model, fill...)
 		case "write":
 			buf.Write(op.Raw)
 			model = append(model, op.Raw...)
@@ -123,6 +131,26 @@ func genHistoryAny(rt *rapid.T, focus string) (*CaseHist, map[string]int) {
 			c.Env = append(c.Env, PreOp{Kind: "encfail", Type: focus, K: rapid.SampledFrom([]int{0, 1, 28, 200}).Draw(rt, "failafter")})
 		}
 		st["process-setting-varied"]++
+	}
+	if rapid.IntRange(0, 4).Draw(rt, "geometry") == 0 {
+		// buffer geometry: a pre-sized buffer written almost to the end and almost entirely consumed, then a message
+		// that does not fit the free tail but fits once the unread bytes are slid down: the buffer moves its content
+		// inside the same array in the middle of this Encode (capacity unchanged)
+		o := DefaultOpts(Arbitrary)
+		o.BigProb, o.MaxList, o.HugeProb, o.HugeObj = 80, 300, 0, 0
+		v, _ := GenValue(rt, focus, o)
+		if r := Render(v, nil); !r.MustError && !r.MayError && len(r.Bytes) >= 8 {
+			l := len(r.Bytes)
+			keep := rapid.SampledFrom([]int{0, 1, 7, 60}).Draw(rt, "keep")
+			capC := 2*(l+keep) + rapid.IntRange(0, l).Draw(rt, "capextra")
+			tail := rapid.IntRange(1, l-1).Draw(rt, "tail")
+			w := capC - tail
+			c.Ops = append(c.Ops, Op{Kind: "cap", K: capC}, Op{Kind: "fill", K: w}, Op{Kind: "consume", K: w - keep}, Op{Kind: "encode", V: v})
+			encIdx = append(encIdx, len(c.Ops)-1)
+			unread, consumed = keep+l, true
+			st["message-sized-to-make-the-buffer-slide-during-encode"]++
+			st["encode-with-unread-after-partial-consume"]++
+		}
 	}
 	for i := 0; i < nops; i++ {
 		kinds := []string{"encode", "encode", "encode", "write", "consume", "consume", "drain"}
